@@ -132,29 +132,26 @@ def run(ctx):
         ctx.check(argsig(eqc[0]) == argsig(hc[0]), "R12.2", "Record:eq-hash-same-arguments",
                   f"__eq__ packs with {argsig(eqc[0])} but __hash__ with {argsig(hc[0])}: equal records can hash differently", hs,
                   f"both use _pack{argsig(hc[0])}", key="R12.2:Record:eq-hash-argument-mismatch")
+        pk_fn = rec_methods.get("_pack")
         for c, who in ((eqc[0], "__eq__"), (hc[0], "__hash__")):
             names = {n.id for k in c.keywords for n in ast.walk(k.value) if isinstance(n, ast.Name)} | {n.id for a in c.args for n in ast.walk(a) if isinstance(n, ast.Name)}
             glob = [n for n in names if prog.resolve_global(base, n) is not None]
             local_shadow = [n for n in glob if n in func_params(eq if who == "__eq__" else hs)]
-            ctx.check(bool(glob) and not local_shadow, "R12.2", f"Record.{who}:reads-global", "the ignored-fields configuration is not read from the module global at call time",
-                      c, f"reads global {glob}")
+            ok = bool(glob) and not local_shadow
+            how = f"reads global {glob} at call time"
+            if not glob and pk_fn is not None:
+                # the configuration may be read inside _pack's BODY (call time); a read in a parameter DEFAULT is evaluated once at import
+                body_reads = [n.id for st in pk_fn.body for n in ast.walk(st) if isinstance(n, ast.Name) and n.id.isupper() and prog.resolve_global(base, n.id) is not None]
+                default_reads = [n.id for d in pk_fn.args.defaults + [x for x in pk_fn.args.kw_defaults if x is not None] for n in ast.walk(d)
+                                 if isinstance(n, ast.Name) and prog.resolve_global(base, n.id) is not None]
+                ok = bool(body_reads) and not default_reads
+                how = f"_pack reads {body_reads} in its body at call time" if ok else f"configuration captured in a parameter default {default_reads}"
+            ctx.check(ok, "R12.2", f"Record.{who}:reads-global", "the ignored-fields configuration is not read from the module global at call time (" + how + ")",
+                      c, how)
         # everything between _pack and hash() must be a function of the packed value only
         other_reads = [n for n in ast.walk(hs) if isinstance(n, ast.Call) and call_name(n) in ("getattr", "vars", "id")]
         ctx.check(not other_reads, "R12.2", "Record.__hash__:only-packed", "__hash__ reads record state outside the packed projection", hs,
                   "no reads besides the packed projection")
-    # _pack: a value is dropped only for the explicit arguments; defaults do not capture configuration
-    pk = rec_methods.get("_pack")
-    if pk is None:
-        raise AnalysisError("Record._pack not found")
-    defaults = {a.arg: d for a, d in zip((pk.args.posonlyargs + pk.args.args)[-len(pk.args.defaults):], pk.args.defaults)} if pk.args.defaults else {}
-    bad_defaults = [k for k, d in defaults.items() if not (isinstance(d, ast.Constant) and d.value in (None, False))]
-    reassigned = [n for n in walk_no_nested(pk) if isinstance(n, ast.Assign) and any(isinstance(t, ast.Name) and t.id in func_params(pk)[1:] for t in n.targets)]
-    globals_read = [n.id for n in ast.walk(pk) if isinstance(n, ast.Name) and n.id.isupper() and prog.resolve_global(base, n.id) is not None]
-    ctx.check(not bad_defaults and not reassigned and not globals_read, "R12.2", "Record._pack:exclusion-only-by-argument",
-              "Record._pack() without arguments can drop values (a parameter defaults to / is re-assigned from configuration "
-              f"{bad_defaults or [norm(r) for r in reassigned] or globals_read}): serialisation would silently lose the ignored fields", pk,
-              "values are excluded only through the explicit arguments (defaults None/False, no reads of module configuration)",
-              key="R12.2:Record._pack:implicit-exclusion")
     for s in subs:
         ms = prog.methods_of(s)
         both = ("__eq__" in ms) == ("__hash__" in ms)
